@@ -521,6 +521,16 @@ class Densify(EnvironmentFilter):
 
         self._lookup = defaultdict(factory)
 
+    def __reduce__(self):
+        #the factory above can't be pickled (e.g., to send an environment to a worker process)
+        return (Densify._rebuild, (self._n_feats,self._method,self._context,self._action,list(self._lookup)))
+
+    @staticmethod
+    def _rebuild(n_feats,method,context,action,keys) -> 'Densify':
+        dense = Densify(n_feats,method,context,action)
+        for key in keys: dense._lookup[key] #columns are handed out in the order the features were first seen
+        return dense
+
     @property
     def params(self) -> Mapping[str, Any]:
         return { "dense_m": self._method, "dense_n": self._n_feats, "dense_c": self._context, "dense_a": self._action }
